@@ -52,8 +52,8 @@ ExpectedGen(L, sels, cfg, total, merge) ==
       stopl == IF cfg.stopnm /\ first > 0 /\ nons # {}
                THEN CHOOSE g \in nons : \A h \in nons : g <= h ELSE 0
       neff == IF stopl > 0 THEN stopl ELSE n
-      IsAfter(i) == \E j \in 1..(i-1) : Sel(j) /\ i - j <= AA
-      IsBefore(i) == \E j \in (i+1)..neff : Sel(j) /\ j - i <= BB
+      IsAfter(i) == \E j \in Max(1, i - AA)..(i-1) : Sel(j)
+      IsBefore(i) == \E j \in (i+1)..Min(neff, i + BB) : Sel(j)
       Deliv(i) == Sel(i) \/ cfg.pass \/ IsAfter(i) \/ IsBefore(i)
       \* end (exclusive) of the run of selected lines starting at i
       RECURSIVE RunEnd(_)
